@@ -800,6 +800,15 @@ def n4(e: Engine, rep: Report, K: Kinds):
         where = ctx.func.qname
         rep.functions.add(where)
         classes = set()
+        tfv = None
+        for k0 in e.p.mro(cq):
+            tfv = common.class_constants(e, k0).get('EX_TEMPFAIL', tfv)
+
+        def _is_tempfail(k, tfv=tfv):
+            # the named constant, or its value once the canonical form has
+            # folded the class-level literal in
+            return 'EX_TEMPFAIL' in k or (
+                tfv is not None and k.endswith(' == %r' % (tfv,)))
         # a flag computed once (`permanent = <pattern>.match(msg)`) stands
         # for its definition
         flagdefs = {}
@@ -840,7 +849,7 @@ def n4(e: Engine, rep: Report, K: Kinds):
                                  for pp, k in st)
                         cond = 'output without a 5.x.x prefix'
                     else:
-                        ok = any(pp and 'EX_TEMPFAIL' in k for pp, k in st)
+                        ok = any(pp and _is_tempfail(k) for pp, k in st)
                         cond = 'exit status EX_TEMPFAIL'
                     rep.check(ok, 'N4', where, 'transient only for ' + cond,
                               'TransientRelayError is raised outside its '
@@ -853,7 +862,7 @@ def n4(e: Engine, rep: Report, K: Kinds):
                                  for pp, k in st)
                         cond = 'output with a 5.x.x prefix'
                     else:
-                        ok = any(not pp and 'EX_TEMPFAIL' in k
+                        ok = any(not pp and _is_tempfail(k)
                                  for pp, k in st)
                         cond = 'an exit status other than EX_TEMPFAIL'
                     rep.check(ok, 'N4', where, 'permanent only for ' + cond,
